@@ -29,9 +29,14 @@ everything in the local sequence space, `kb` to everything in the remote one, mo
 (`open`, LISTEN, CLOSED, `segment_arrives` with its reorder heap and processing loop,
 `advance_time`, `send`, `receive`, `close`, `abort`, `segments`), for ALL `ka kb` — wrap-around
 anywhere in the handshake or the transfer included; `c12_run_shift_partial`: so does every
-admissible run of the two-endpoint system, by induction.  The exclusions are explicit hypotheses,
-each with a witness theorem: the RFC-mandated `SEQ = 0` reset outside a connection
-(`c12_closed_rst_seq_zero`) and F-C12-2, the unset `SND.WL2` (`c12_wl2_counterexample`).
+admissible run of the two-endpoint system, by induction.  The one exclusion is an explicit
+hypothesis with a witness theorem: the RFC-mandated `SEQ = 0` reset outside a connection
+(`c12_closed_rst_seq_zero`).
+
+F-C12-2 (repaired in the repository, commit `fix: SND.WL2 is initialised with ISS …`): `SND.WL2`
+was copied from the ACK field of a SYN that carries no ACK bit (an absolute 0) and survived
+`close()` / a FIN in SYN-RECEIVED; the step and run theorems excluded those two paths.  The
+exclusion is gone; the former `c12_wl2_counterexample` is kept as `c12_wl2_regression`.
 
 F-C12-1 (repaired in the repository, commit `fix: mod_leq/mod_geq …`): `mod_leq a b` was coded as
 `mod_lt a (b+1)` and therefore false at distance exactly `2^31 − 1` although `mod_lt` is true
@@ -288,8 +293,8 @@ theorem c12_segment_order_needs_half_circle :
     `ConnectionReset ≃ BlindReset` (in SYN-SENT the code tells them apart by `SEG.SEQ = RCV.NXT`
     with `RCV.NXT` still unset; `segment_arrives` deletes the TCB in both cases); block 4 needs
     "our SYN is acknowledged iff the segment carries an ACK" in SYN-SENT (true of every TCB made
-    by `open`, `ackBlock_fresh`); block 5 is not reached in SYN-SENT; block 6 excludes a FIN in
-    SYN-RECEIVED (F-C12-2). -/
+    by `open`, `ackBlock_fresh`); block 5 is not reached in SYN-SENT; block 6 commutes
+    unconditionally. -/
 theorem c12_block_shift (ka kb : Seq) (s : Tcb) (seg : Hdr) (text : List UInt8) (tl : Seq) :
     Tcb.seqCheck (s.shift ka kb) (seg.shift kb ka) tl = M.shift ka kb (Tcb.seqCheck s seg tl) ∧
     Tcb.ackBlock (s.shift ka kb) (seg.shift kb ka) = M.shift ka kb (Tcb.ackBlock s seg) ∧
@@ -298,55 +303,53 @@ theorem c12_block_shift (ka kb : Seq) (s : Tcb) (seg : Hdr) (text : List UInt8) 
       Tcb.synBlock (s.shift ka kb) (seg.shift kb ka) = M.shift ka kb (Tcb.synBlock s seg)) ∧
     (s.state ≠ .SynSent →
       Tcb.textBlock (s.shift ka kb) (seg.shift kb ka) text tl = M.shift ka kb (Tcb.textBlock s seg text tl)) ∧
-    ((seg.ctl.fin = true → s.state ≠ .SynReceived) →
-      Tcb.finBlock (s.shift ka kb) (seg.shift kb ka) tl = M.shift ka kb (Tcb.finBlock s seg tl)) :=
+    Tcb.finBlock (s.shift ka kb) (seg.shift kb ka) tl = M.shift ka kb (Tcb.finBlock s seg tl) :=
   ⟨shift_seqCheck ka kb s seg tl, shift_ackBlock ka kb s seg, shift_rstBlock_norm ka kb s seg,
    shift_synBlock ka kb s seg, shift_textBlock ka kb s seg text tl, shift_finBlock ka kb s seg tl⟩
 
-/-- T2: `process_segment` as a whole, on a TCB that is fresh while in SYN-SENT, for a segment
-    that does not bring a FIN into SYN-SENT / SYN-RECEIVED -/
-theorem c12_process_segment_shift (ka kb : Seq) (s : Tcb) (seg : Segment) (hF : SynSentFresh s)
-    (hfin : seg.hdr.ctl.fin = true → Late s) :
+/-- T2: `process_segment` as a whole, on a TCB that is fresh while in SYN-SENT, for EVERY
+    segment -/
+theorem c12_process_segment_shift (ka kb : Seq) (s : Tcb) (seg : Segment) (hF : SynSentFresh s) :
     normM (Tcb.processSegment (s.shift ka kb) (seg.shift kb ka)) =
       normM (M.shift ka kb (Tcb.processSegment s seg)) :=
-  shift_processSegment ka kb s seg hF hfin
+  shift_processSegment ka kb s seg hF
 
 /-- T2 `c12_step_shift`: every operation of the TCB API commutes with the shift map, for all
-    `ka kb`.  `_partial` because of the two F-C12-2 hypotheses (`close` not in SYN-RECEIVED;
-    `ArrPre.nofin`: no FIN processed in SYN-SENT / SYN-RECEIVED); the other hypotheses are
-    invariants of every TCB made by `open` (`SynSentFresh`, empty reorder heap in SYN-SENT) and
-    the RFC exclusion for CLOSED (`rst ∨ ack`, see `c12_closed_rst_seq_zero`). -/
+    `ka kb`.  `_partial` because of the RFC exclusion for CLOSED (`rst ∨ ack`, see
+    `c12_closed_rst_seq_zero`); the other hypotheses are invariants of every TCB made by `open`
+    (`ArrPre`: `SynSentFresh`, empty reorder heap in SYN-SENT; zero send window in SYN-SENT).
+    `close` and `segment_arrives` carry no exclusion any more (F-C12-2 repaired). -/
 theorem c12_step_shift_partial (ka kb : Seq) :
     (∀ lp rp iss mtu, Tcb.open lp rp (iss + ka) mtu = shiftE ka kb (Tcb.open lp rp iss mtu)) ∧
     (∀ seg iss mtu, segmentArrivesListen (Segment.shift kb ka seg) (iss + ka) mtu =
         shiftL ka kb (segmentArrivesListen seg iss mtu)) ∧
     (∀ (seg : Hdr) tl, seg.ctl.rst = true ∨ seg.ctl.ack = true →
         segmentArrivesClosed (seg.shift kb ka) tl = (segmentArrivesClosed seg tl).map (Hdr.shift ka kb)) ∧
-    (∀ (s : Tcb) seg, ArrPre s seg →
+    (∀ (s : Tcb) seg, ArrPre s →
         (s.shift ka kb).segmentArrives (seg.shift kb ka) = M.shift ka kb (s.segmentArrives seg)) ∧
     (∀ (s : Tcb) dt, (s.shift ka kb).advanceTime dt = M.shift ka kb (s.advanceTime dt)) ∧
     (∀ (s : Tcb) m, (s.shift ka kb).send m = (s.send m).shift ka kb) ∧
     (∀ (s : Tcb), (s.shift ka kb).receive = ((s.receive).1.shift ka kb, (s.receive).2)) ∧
-    (∀ (s : Tcb), s.state ≠ .SynReceived → (s.shift ka kb).close = M.shift ka kb s.close) ∧
+    (∀ (s : Tcb), (s.shift ka kb).close = M.shift ka kb s.close) ∧
     (∀ (s : Tcb), (s.shift ka kb).abort = shiftE ka kb s.abort) ∧
     (∀ (s : Tcb), (s.state = .SynSent → s.snd.wnd = 0) →
         (s.shift ka kb).segments = M.shiftOut ka kb s.segments) :=
   ⟨shift_open ka kb, fun seg iss mtu => shift_listen ka kb seg iss mtu, fun seg tl h => shift_closed ka kb seg tl h,
    fun s seg h => shift_segmentArrives ka kb s seg h, shift_advanceTime ka kb, shift_send ka kb,
-   shift_receive ka kb, fun s h => shift_close ka kb s h, shift_abort ka kb,
+   shift_receive ka kb, shift_close ka kb, shift_abort ka kb,
    fun s h => shift_segments ka kb s h⟩
 
-/-- the hypotheses of `c12_step_shift_partial` are satisfiable in a non-trivial state: an
-    ESTABLISHED TCB in the middle of a transfer, with a parked out-of-order segment, meeting a
-    data segment with FIN -/
+/-- the hypotheses of `c12_step_shift_partial` are satisfiable in non-trivial states: a
+    SYN-RECEIVED TCB of a simultaneous open (the state F-C12-2 used to exclude for FIN/`close`)
+    with a parked out-of-order segment, and a fresh SYN-SENT TCB -/
 example :
-    let t : Tcb := { localPort := 1, remotePort := 2, mtu := 1500, initiation := .Open, state := .Established,
-                     snd := { una := 4294967290#32, nxt := 5#32, wnd := 65535, wl1 := 77, wl2 := 4294967290#32,
-                              iss := 4294967000#32 },
-                     rcv := { irs := 70, nxt := 2147483640#32 },
+    let t : Tcb := { localPort := 1, remotePort := 2, mtu := 1500, initiation := .Open, state := .SynReceived,
+                     snd := { una := 4294967000#32, nxt := 4294967001#32, wnd := 65535, wl1 := 70,
+                              wl2 := 4294967000#32, iss := 4294967000#32 },
+                     rcv := { irs := 70, nxt := 71 },
                      incoming := { segments := [segAt 2147483700#32] } }
-    ArrPre t ⟨{ (segAt 2147483640#32).hdr with ctl := { ack := true, fin := true }, ack := 5#32 }, [1, 2, 3]⟩ :=
-  ⟨(fun h => by cases h), (fun h => by cases h), (fun h => absurd (And.intro (by decide) (by decide)) h)⟩
+    ArrPre t ∧ ArrPre (match Tcb.open 1 2 4294967295#32 1500#16 with | .ok u => u | .error _ => t) :=
+  ⟨⟨(fun h => by cases h), (fun h => by cases h)⟩, ⟨(fun _ => ⟨rfl, rfl, rfl⟩), (fun _ => rfl)⟩⟩
 
 /-- outside a connection, a segment without ACK is answered with `<SEQ=0><ACK=SEG.SEQ+SEG.LEN><CTL=RST,ACK>`
     (RFC 9293 3.10.7.1): the ACK moves with the peer's space, the SEQ is 0 for every ISN pair -/
@@ -356,7 +359,7 @@ theorem c12_closed_rst_seq_zero (ka kb : Seq) (seg : Hdr) (tl : Seq)
     (segmentArrivesClosed (seg.shift kb ka) tl).map (·.seq) = some 0 :=
   closed_rst_seq_zero ka kb seg tl hr ha
 
-/-! ## F-C12-2: the unset `SND.WL2` -/
+/-! ## F-C12-2 (repaired): `SND.WL2` after a SYN without ACK -/
 
 /-- active open with ISS `iss`; the peer's SYN (no ACK) arrives: simultaneous open, SYN-RECEIVED;
     `close()`; the peer's SYN-ACK arrives advertising a window of 1234 -/
@@ -371,14 +374,16 @@ def sndWnd (r : Except String (Sys × List Res)) : Option Nat :=
   | .ok (s, _) => s.a.tcb.map fun t => t.snd.wnd.toNat
   | .error _ => none
 
-/-- F-C12-2 (known, replayed on the real code by the `c12-run` probe): `SND.WL2` is copied from
-    the ACK field of the peer's SYN, which carries no ACK bit — the constant 0.  After `close()` in
-    SYN-RECEIVED the window-update test `SND.WL1 = SEG.SEQ ∧ SND.WL2 =< SEG.ACK` compares the
-    peer's real ACK number with that 0: with ISS 100 the retransmitted SYN-ACK updates `SND.WND`
-    to 1234, with ISS 2^31+100 (the same ops shifted by 2^31) it does not. -/
-theorem c12_wl2_counterexample :
+/-- F-C12-2, the former counterexample (replayed on the real code by the `c12-run` probes).
+    `SND.WL2` used to be copied from the ACK field of the peer's SYN, which carries no ACK bit —
+    the constant 0; after `close()` in SYN-RECEIVED the window-update test
+    `SND.WL1 = SEG.SEQ ∧ SND.WL2 =< SEG.ACK` compared the peer's real ACK number with that 0: with
+    ISS 100 the retransmitted SYN-ACK updated `SND.WND` to 1234, with ISS 2^31+100 (the same ops
+    shifted by 2^31) it did not.  With `SND.WL2 = ISS` after a SYN without ACK both runs take the
+    update. -/
+theorem c12_wl2_regression :
     sndWnd (Sys.run {} (wl2Ops 100)) = some 1234 ∧
-    sndWnd (Sys.run {} (wl2Ops (2147483648 + 100))) = some 65535 ∧
+    sndWnd (Sys.run {} (wl2Ops (2147483648 + 100))) = some 1234 ∧
     wl2Ops (2147483648 + 100) = (wl2Ops 100).map (Op.shift 2147483648#32 0#32) :=
   ⟨by decide, by decide, by rfl⟩
 
@@ -392,9 +397,9 @@ theorem c12_wl2_counterexample :
     state changes, SEQ/ACK fields moved by exactly `ka` / `kb` — for all `ka kb`, i.e. for all
     ISN pairs, wrap-around included.
 
-    `_partial` because of `RunExcl`, which demands of the ORIGINAL run only the genuine exclusions:
-    * F-C12-2: no `close()` in SYN-RECEIVED and no FIN (arriving or parked) processed while the
-      TCB is in SYN-SENT / SYN-RECEIVED;
+    `_partial` because of `RunExcl`, which demands of the ORIGINAL run only the genuine exclusions
+    (the former third one, F-C12-2 — no `close()` / FIN in SYN-RECEIVED — is gone with the repair
+    of the code; `c12_wl2_regression` is a run through exactly that path):
     * the RFC-mandated `SEQ = 0` reset: a segment that meets neither a TCB nor a LISTEN binding
       carries RST or ACK;
     * plumbing: a delivered / forged segment is addressed to the side it is handed to
@@ -417,6 +422,10 @@ def demoOps : List Op :=
     .emit .A, .deliver .B 3, .read .B, .emit .B, .deliver .A 4 ]
 
 example : RunExcl {} demoOps := runExcl_of_B {} demoOps (by decide)
+
+/-- the run theorem also covers the path F-C12-2 used to exclude: `close()` in SYN-RECEIVED after a
+    simultaneous open, then a window update -/
+example : RunExcl {} (wl2Ops 100) := runExcl_of_B {} (wl2Ops 100) (by decide)
 
 
 /-- … and the run is not trivial: the 20 bytes arrive, both sides end ESTABLISHED -/
